@@ -60,16 +60,16 @@ Proof.
   { intros i neg k Hk. destruct (nth_error (phandles t) i) as [h|] eqn:Hh; [|exact Hv].
     destruct (pinode t (pino h)) as [[pm|d pm]|]; try (destruct (negb neg && pclosed h); exact Hv). now apply Hk. }
   destruct o; cbn [p_step].
-  - (* Create *) destruct (plookup t (normalize_path p)) as [i|] eqn:Hl.
+  - (* Create *) destruct (pthrough_file t (normalize_path p)); [exact Hv|]. destruct (plookup t (normalize_path p)) as [i|] eqn:Hl.
     + destruct (pnode_at t (normalize_path p)) as [[pm|d pm]|]; try exact Hv.
       apply pvalid_open; [now apply pvalid_set_inode|]. unfold set_inode. cbn. rewrite list_set_len. eapply Hlt; eauto.
     + destruct (pnode_at t (normalize_path p)) as [[pm|d pm]|]; destruct (pis_dir t (pparent (normalize_path p))); try exact Hv;
         (apply pvalid_open; [now apply pvalid_padd | rewrite padd_len; lia]).
-  - (* Mkdir *) destruct (plookup t (normalize_path p)); [exact Hv|].
-    destruct (pis_dir t (pparent (normalize_path p))); [now apply pvalid_padd|]. destruct (plookup t (pparent (normalize_path p))); exact Hv.
-  - (* MkdirAll *) destruct (pnode_at t (normalize_path p)) as [[pm|d pm]|]; try exact Hv. now apply pvalid_mkchain.
-  - (* Open *) destruct (plookup t (normalize_path p)) as [i|] eqn:Hl; [|exact Hv]. apply pvalid_open; [exact Hv | eapply Hlt; eauto].
-  - (* OpenFile *) destruct (plookup t (normalize_path p)) as [i|] eqn:Hl.
+  - (* Mkdir *) destruct (pthrough_file t (normalize_path p)); [exact Hv|]. destruct (plookup t (normalize_path p)); [exact Hv|].
+    destruct (pis_dir t (pparent (normalize_path p))); [now apply pvalid_padd | exact Hv].
+  - (* MkdirAll *) destruct (pthrough_file t (normalize_path p)); [exact Hv|]. destruct (pnode_at t (normalize_path p)) as [[pm|d pm]|]; try exact Hv. now apply pvalid_mkchain.
+  - (* Open *) destruct (pthrough_file t (normalize_path p)); [exact Hv|]. destruct (plookup t (normalize_path p)) as [i|] eqn:Hl; [|exact Hv]. apply pvalid_open; [exact Hv | eapply Hlt; eauto].
+  - (* OpenFile *) destruct (pthrough_file t (normalize_path p)); [exact Hv|]. destruct (plookup t (normalize_path p)) as [i|] eqn:Hl.
     + destruct (pnode_at t (normalize_path p)) as [x|]; [|exact Hv].
       destruct (fl flag o_create && fl flag o_excl); [exact Hv|].
       destruct x as [pm|d pm].
@@ -80,16 +80,16 @@ Proof.
     + destruct (pnode_at t (normalize_path p)) as [[pm|d pm]|]; destruct (fl flag o_create); try exact Hv;
         destruct (pis_dir t (pparent (normalize_path p))); try exact Hv;
         (apply pvalid_open; [now apply pvalid_padd | rewrite padd_len; lia]).
-  - (* Remove *) destruct (pnode_at t (normalize_path p)) as [[pm|d pm]|]; try exact Hv.
+  - (* Remove *) destruct (pthrough_file t (normalize_path p)); [exact Hv|]. destruct (pnode_at t (normalize_path p)) as [[pm|d pm]|]; try exact Hv.
     destruct (phas_children t (normalize_path p) || beqb (normalize_path p) s_slash); exact Hv.
-  - (* RemoveAll *) now apply pvalid_set_tree.
-  - (* Rename *) destruct (plookup t (normalize_path p)); [|exact Hv].
+  - (* RemoveAll *) destruct (pthrough_file t (normalize_path p)); [exact Hv|]. now apply pvalid_set_tree.
+  - (* Rename *) destruct (pthrough_file t (normalize_path p)); [exact Hv|]. destruct (negb (pis_dir t (pparent (normalize_path p)))); [exact Hv|]. destruct (pthrough_file t (normalize_path q)); [exact Hv|]. destruct (plookup t (normalize_path p)); [|exact Hv].
     destruct (beqb (normalize_path p) (normalize_path q)); [exact Hv | now apply pvalid_set_tree].
-  - (* Stat *) destruct (pnode_at t (normalize_path p)) as [[pm|d pm]|]; exact Hv.
-  - (* Chmod *) destruct (plookup t (normalize_path p)); [|exact Hv].
+  - (* Stat *) destruct (pthrough_file t (normalize_path p)); [exact Hv|]. destruct (pnode_at t (normalize_path p)) as [[pm|d pm]|]; exact Hv.
+  - (* Chmod *) destruct (pthrough_file t (normalize_path p)); [exact Hv|]. destruct (plookup t (normalize_path p)); [|exact Hv].
     destruct (pnode_at t (normalize_path p)) as [[pm|d pm]|]; try exact Hv; now apply pvalid_set_inode.
-  - (* Chown *) destruct (plookup t (normalize_path p)); exact Hv.
-  - (* Chtimes *) destruct (plookup t (normalize_path p)); exact Hv.
+  - (* Chown *) destruct (pthrough_file t (normalize_path p)); [exact Hv|]. destruct (plookup t (normalize_path p)); exact Hv.
+  - (* Chtimes *) destruct (pthrough_file t (normalize_path p)); [exact Hv|]. destruct (plookup t (normalize_path p)); exact Hv.
   - (* HRead *) apply Hfile. intros hd d pm Hh. destruct (pclosed hd); [exact Hv|]. cbn [fst]. eapply pvalid_seth; eauto.
   - (* HReadAt *) apply Hfile. intros hd d pm Hh. destruct (off <? 0); [exact Hv|]. destruct (pclosed hd); exact Hv.
   - (* HWrite *) apply Hfile. intros hd d pm Hh. destruct (pclosed hd); [exact Hv|]. destruct (pro hd); [exact Hv|]. cbn [fst].
